@@ -3,7 +3,9 @@ grammar's printer, record generators and the three-step run protocol.
 
 python case: ( mode pattern rec mdc thread ast envsel )
   mode    1 construct + encode, 2 construct only, 4 = as 1 but the harness first encodes the
-          pid/thread formatters, then forks and encodes in the child (the model sees mode 1)
+          pid/thread formatters, then forks and encodes in the child (the model sees mode 1),
+          5 = as 1 but the harness process first switches its time zone (TZ variable; the zone stays
+          switched for the later cases of that process; the date oracle is rendered after the switch)
   pattern code points
   rec     ( level msg target module? file? line? )      options are () or (v)
   mdc     ( (key value).. )      thread () | (name)
@@ -280,7 +282,7 @@ def model_lines(ctx, cases, lines, impl_lines, keep_junk=False):
         ast = c[5]
         if ast and not keep_junk:
             ast = [ast[0]]
-        out.append(vc.show([1 if c[0] == 4 else c[0], c[1], c[2], c[3], c[4], cls, rt, tt, ast]))
+        out.append(vc.show([1 if c[0] in (4, 5) else c[0], c[1], c[2], c[3], c[4], cls, rt, tt, ast]))
     return out
 
 
